@@ -349,6 +349,9 @@ class FloatEdit(NumEdit):
                 float(default)
                 default = Decimal(default)
 
+            if isinstance(default, Decimal) and not default.is_finite():
+                raise ValueError(f"invalid value: {default}")
+
             if preserve_significance and isinstance(default, Decimal):
                 self.significance = default
 
